@@ -4,8 +4,10 @@ From Coq Require Import ZArith List Bool.
 From QF Require Import Base.Res Base.Bytes Codec.FixInt Codec.FixIntProofs.
 Open Scope Z_scope.
 
-(* int: exactly the texts of the grammar -?[0-9]+ are accepted, everything else is an error (never a panic) *)
-Theorem c14_int_accepts_exactly_grammar : forall d,
-  (int_grammar d = true -> exists z, fix_int_read d = Ok z) /\
-  (int_grammar d = false -> exists e, fix_int_read d = Err e).
-Proof. exact atoi_accepts_iff_grammar. Qed.
+(* int: a text outside the grammar -?[0-9]+ is an error, and reading never panics or hangs *)
+Theorem c14_int_rejects_outside_grammar : forall d,
+  int_grammar d = false -> exists e, fix_int_read d = Err e.
+Proof. exact atoi_rejects_nongrammar. Qed.
+
+Theorem c14_int_read_total : forall d, total_res (fix_int_read d).
+Proof. exact atoi_total. Qed.
